@@ -32,6 +32,12 @@ CHECKS = {
         note="Trusts the 40-line Fraction model in checks/c07.py and a 1e-9 relative tolerance; 0/0 pairs accept NaN or 0.",
         ref="2 C07",
     ),
+    "C18": dict(
+        technique="property-based testing: Hypothesis trees with known dangling includes / unknown directives / bad database entries; oracle = event multiset of the reference preprocessor model vs captured log records and CLI totals",
+        text="Generated-input search over code bases with a known set of unhonourable inputs. The reference model computes the expected multiset of warning events (per evaluation of a dangling include with file, line, name, form; reached unknown directives; missing-file entries; unknown compilers; unknown flags) which is compared with the WARNING records captured from config.load_database + finder.find; nothing else may be warned. A CLI layer compares the closing totals of `codebasin` with the warnings in cbi.log. Bounded exploration.",
+        note="Trusts the preprocessor model validated against gcc in C04 (gcc itself rejects these inputs); forced includes are generated resolvable; every platform keeps one valid entry.",
+        ref="2 C18",
+    ),
 }
 
 NOT_YET = {}
